@@ -9,7 +9,9 @@ from common import Result, rng_for
 from coqemit import cq_json, cq_str, cq_list, cq_bool
 
 NAMES = ["uuid", "date-time", "fmtA", "fmtB", "x-y", "", "Ünï", "email", "UUID", "fmta", "Date-Time", "FMTB"]   # names are case-sensitive keys
-STRINGS = ["", "abc", "123e4567-e89b-12d3-a456-426614174000", "2020-01-01T00:00:00Z", "a b", "é", "0", "zz"]
+# the format names of the JSON Schema drafts: none of them is registered by the library (apart from the two above), so none may reject
+NAMES += ["ipv4", "ipv6", "hostname", "uri", "uri-reference", "uri-template", "json-pointer", "regex", "date", "time", "idn-email", "iri", "duration"]
+STRINGS = ["", "abc", "123e4567-e89b-12d3-a456-426614174000", "2020-01-01T00:00:00Z", "a b", "é", "0", "zz", "127.0.0.1", "::1", "a@b.c", "(", "2020-01-01"]
 NONSTR = [1, 0, None, True, False, 1.5, ["abc"], {"abc": "abc"}, []]
 
 
@@ -42,7 +44,7 @@ def run_history(ops):
     from statham.schema.exceptions import ValidationError
     saved = dict(fc._callable_register)
     builtin_tables = {}
-    for nm in ("uuid", "date-time"):
+    for nm in list(saved):            # whatever the library registers at import is "registered" (uuid, date-time today)
         if nm in saved:
             acc = []
             for s in STRINGS:
@@ -177,6 +179,10 @@ def run(tier, seed, replay=None):
             [["reg", "uuid", []], ["chk", True, "uuid", "123e4567-e89b-12d3-a456-426614174000"], ["chk", True, "date-time", "abc"]],
             [["chk", True, "f", 1], ["chk", False, "f", None], ["reg", "f", []], ["chk", False, "f", ["abc"]], ["chk", False, "f", "abc"]],
         ]
+        # every name with nothing registered by the test, against every string, through both element kinds
+        # (names the library registers itself are recognised in run_history from its register)
+        for nm in NAMES:
+            hists.append([["chk", k, nm, s] for s in STRINGS for k in (True, False)])
         for _ in range(150 if tier == "quick" else 3000):
             hists.append(gen_history(rng, tier))
     cases, metas = [], []
